@@ -706,6 +706,14 @@ func aliasIn(v *Val) *Val {
 	if v == nil {
 		return nil
 	}
+	// a copy of the buffer object itself (`view := *buf`): the copy's slice header points at the same array
+	if v.Type != nil && (v.Op == "init" || v.Op == "fieldval" || v.Op == "struct") {
+		if n, ok := v.Type.(*types.Named); ok && n.Obj().Name() == "Buffer" && n.Obj().Pkg() != nil && n.Obj().Pkg().Path() == "bytes" {
+			if v.Op == "init" {
+				return v
+			}
+		}
+	}
 	switch v.Op {
 	case "bufbytes", "bufnext", "availbuf":
 		return v
